@@ -13,7 +13,7 @@ def pref(*pp):
 def c01(tier, seed):
     runs = [Run('e2_phrase', 'asan', ['c01'])]
     if tier == 'thorough':
-        runs.append(Run('e2_phrase', 'dbg', ['c01']))
+        runs.append(Run('e2_phrase', 'dbg', ['--tier', 'quick', 'c01'], label='e2_phrase[dbg] c01 (quick set, assertions on)'))
     return check('C01', tier, seed, runs, keyfilter=pref('c01:'), assumptions=ASSUME_COMMON + [
         'factoring: every 11-bit word value in every position in each background seed, all 1- and 2-bit seeds, all coins, all birthdays x supported features x masks; an effect that needs three specific bits in different words outside every background escapes'])
 
